@@ -112,13 +112,7 @@ DoSign ==
 \* modelled as signing with the randomized key package
 FSign ==
   /\ pc[1] = "fsign"
-  /\ LET i == sc.S[pc[2]] IN
-       /\ Has(<<"kp", i>>)
-       /\ \E o \in Outcomes(ro, "sign", [pkg |-> env[PKG], non |-> env[<<"non", i>>], kp |-> RandomizeKp(env[<<"kp", i>>], env[RP])]) :
-            /\ ro' = o[1]
-            /\ Finish("rr_sign_fixed", o[2], IF o[2].ok THEN (<<"z", i>> :> [ty |-> "zs", z |-> o[2].z]) ELSE << >>,
-                      [op |-> "rr_sign_fixed", out |-> <<"z", i>>, pkg |-> PKG, non |-> <<"non", i>>, kp |-> <<"kp", i>>,
-                       rp |-> RP, expect |-> IF o[2].ok THEN [ok |-> TRUE, z |-> o[2].z] ELSE ErrProj(o[2])])
+  /\ LET i == sc.S[pc[2]] IN ActRrSignFixed(<<"z", i>>, PKG, <<"non", i>>, <<"kp", i>>, RP)
   /\ Go(IF LastS(pc[2]) THEN <<"agg", 1>> ELSE <<"fsign", pc[2] + 1>>)
   /\ UNCHANGED sc
 
